@@ -83,7 +83,21 @@ def check(ctx: Ctx) -> str:
     ctx.floor("awaited stores into self.*", n, 1)
     gd = repo.func("environment:Template._get_default_module_async")
     s = ast.unparse(gd.node)
-    ctx.check("return await self.make_module_async({k: ctx.parent[k] for k in keys})" in s and "keys = ctx.globals_keys - self.globals.keys()" in s, "default-module:ctx-specific", "environment:Template._get_default_module_async", "context specific modules are not memoised", "a module that depends on the importing context's extra globals must be built fresh and not stored", gd.loc())
+    # `return await self.make_module_async({k: ctx.parent[k] for k in <extra keys>})` - returned,
+    # never stored - where <extra keys> = ctx.globals_keys - self.globals.keys() (any local names)
+    spec_ok = False
+    for r_ in astq.returns(gd.node):
+        v_ = r_.value.value if isinstance(r_.value, ast.Await) else r_.value
+        if isinstance(v_, ast.Call) and astq.callee(v_) == "self.make_module_async" and len(v_.args) == 1 and isinstance(v_.args[0], ast.DictComp):
+            dc = v_.args[0]
+            g_ = dc.generators[0]
+            kv = ast.unparse(g_.target)
+            keys_src = g_.iter
+            if isinstance(keys_src, ast.Name):
+                d_ = [a for a in ast.walk(gd.node) if isinstance(a, ast.Assign) and len(a.targets) == 1 and isinstance(a.targets[0], ast.Name) and a.targets[0].id == keys_src.id]
+                keys_src = d_[0].value if len(d_) == 1 else keys_src
+            spec_ok = ast.unparse(dc.key) == kv and ast.unparse(dc.value) == f"ctx.parent[{kv}]" and ast.unparse(keys_src) == "ctx.globals_keys - self.globals.keys()"
+    ctx.check(spec_ok, "default-module:ctx-specific", "environment:Template._get_default_module_async", "context specific modules are not memoised", "a module that depends on the importing context's extra globals must be built fresh and not stored", gd.loc())
 
     ctx.rule("R3", "per-render state: each render creates its own Context (fresh vars, exported_vars, block stacks, EvalContext); generated code stores only into locals and the per-render context")
     ci = repo.func("runtime:Context.__init__")
